@@ -1057,6 +1057,94 @@ def rule_r21(repo, run, T):
     run.floor(R, "strncpy into a caller's sized array", n, 1)
 
 
+
+def rule_r23(repo, run, T):
+    R = run.rule("C03.R23", "`T *&arg` is `T **arg` spelled in C++: the statements of a reference to a pointer are those of the "
+                            "pointer to a pointer, only the call argument differs (`{cxx_var}` for `&{cxx_var}`): the library owns "
+                            "what it stores there in both cases")
+    n = 0
+    for key in ("py",):
+        table = T[key]
+        res = table.resolve_all("c++")
+        for name, e in sorted(res.items()):
+            if "*&" not in name:
+                continue
+            twin = name.replace("*&", "**")
+            if twin not in res:
+                continue
+            n += 1
+            e2 = res[twin]
+            diff = [k for k in sorted(e.keys() | e2.keys()) if k not in ("name", "base", "arg_call") and e.get(k) != e2.get(k)]
+            run.check(R, "py_statements[%s<->%s]" % (name, twin), not diff,
+                      "the entries differ in %s: the reference form allocates, converts or releases differently from the pointer "
+                      "form (e.g. inheriting the caller-allocated `*` statements makes the wrapper malloc a buffer the library "
+                      "replaces, and free the library's memory afterwards)" % diff, table.loc(e.raw))
+            args = (e.lines("arg_call"), e2.lines("arg_call"))
+            run.check(R, "py_statements[%s<->%s]:arg_call" % (name, twin),
+                      len(args[0]) == len(args[1]) == 1 and args[1][0] == "&" + args[0][0],
+                      "the call arguments are %s and %s: the pointer form passes the address of what the reference form passes"
+                      % args, table.loc(e.raw))
+    run.floor(R, "reference-to-pointer entries with a pointer-to-pointer twin", n, 3)
+
+
+
+def rule_r24(repo, run, T):
+    R = run.rule("C03.R24", "a struct-as-class object keeps two PyObject pointers per pointer member (the array handed out by the "
+                            "getter and the capsule that owns the memory): declared, cleared and released together - every group of "
+                            "process_member_obj calls names each of them once")
+    wp = repo.module("wrapp")
+    groups = {}
+    for q, fn in sorted(wp.functions().items()):
+        for c in ast.walk(fn):
+            if isinstance(c, ast.Call) and (pyflow.call_name(c) or "").endswith(".process_member_obj") and len(c.args) == 3:
+                text = pyflow.const_str(c.args[1])
+                if text is None:
+                    continue
+                groups.setdefault((q, ast.unparse(c.args[2])), []).append((c, text))
+    universe = set()
+    for calls in groups.values():
+        for c, text in calls:
+            universe |= set(re.findall(r"\{(PY_member_\w+)\}", text))
+    if len(universe) < 2 or len(groups) < 3:
+        raise AnalysisError("C03.R24: process_member_obj call groups not found (%d groups, fields %s)" % (len(groups), sorted(universe)))
+    for (q, out), calls in sorted(groups.items()):
+        fields = [f for c, text in calls for f in re.findall(r"\{(PY_member_\w+)\}", text)]
+        shapes = set(re.sub(r"\{PY_member_\w+\}", "{}", text) for c, text in calls)
+        run.check(R, "wrapp.%s:process_member_obj(%s)" % (q, out), sorted(fields) == sorted(universe) and len(shapes) == 1,
+                  "the calls name %s with the statement shapes %s; each of %s has to get the same statement once: a pointer that is "
+                  "not cleared is released as garbage when the object goes away, one that is not released leaks"
+                  % (fields, sorted(shapes), sorted(universe)), wp.loc(calls[0][0]))
+
+
+
+def rule_r25(repo, run, T):
+    R = run.rule("C03.R25", "the body of a Python wrapper is assembled in the order conversion - call - post_call (build the "
+                            "result objects from the C buffers) - cleanup (release the buffers) - return - fail: label")
+    wp = repo.module("wrapp")
+    fn = wp.func("Wrapp.wrap_function")
+    ORDER = ["post_declare_code", "post_parse_code", "pre_call_case", "post_call_code", "cleanup_code", "return_code", "fail_code"]
+    pos = {}
+    for c in ast.walk(fn):
+        if isinstance(c, ast.Call) and isinstance(c.func, ast.Attribute) and pyflow.is_name(c.func.value, "PY_code") \
+                and c.func.attr in ("extend", "append") and c.args:
+            a = c.args[0]
+            while isinstance(a, ast.Subscript):
+                a = a.value
+            if isinstance(a, ast.Name) and a.id in ORDER:
+                pos.setdefault(a.id, []).append(c)
+    missing = [k for k in ("post_call_code", "cleanup_code", "return_code", "fail_code") if k not in pos]
+    if missing:
+        raise AnalysisError("C03.R25: the pieces %s are no longer appended to PY_code in wrap_function" % missing)
+    present = [k for k in ORDER if k in pos]
+    for a, b in zip(present, present[1:]):
+        last_a = max((c.lineno, c.col_offset) for c in pos[a])
+        first_b = min((c.lineno, c.col_offset) for c in pos[b])
+        run.check(R, "wrapp.Wrapp.wrap_function:%s<%s" % (a, b), last_a < first_b,
+                  "`%s` is appended to the body at line %d, after `%s` (line %d): e.g. the cleanup clause frees the C array the "
+                  "post_call clause still reads to build the returned list" % (a, last_a[0], b, first_b[0]),
+                  wp.loc([c for c in pos[b] if (c.lineno, c.col_offset) == first_b][0]))
+
+
 def run(repo, run, tier):
     tables.check_model_assumptions(repo)
     T = dict(py=tables.StatementTable(repo, "wrapp", "py_statements"),
@@ -1084,3 +1172,6 @@ def run(repo, run, tier):
     rule_r20(repo, run, T)
     rule_r21(repo, run, T)
     run.assumptions.append("LP64 sizes; CPython PyArg_Parse / Py_BuildValue unit table in the checker")
+    rule_r23(repo, run, T)
+    rule_r24(repo, run, T)
+    rule_r25(repo, run, T)
